@@ -654,6 +654,9 @@ func runHS(run *ev.Run, deadline time.Time) {
 			c := c
 			fs, class := evalHS(c)
 			cs.add(class)
+			if i == 2 && c == cases[i*batch] {
+				run.Sample(map[string]interface{}{"part": "hs", "case": c, "class": class})
+			}
 			sink.add(fs, func() []finding { f, _ := evalHS(c); return f })
 		}
 		run.Eval(hi - i*batch)
